@@ -1207,6 +1207,31 @@ def run_C05(ctx):
         ctx.count("udiff:bytes", 4)
     C.evaluate(ctx, "corpus", corpus_lines({"udiff"}), rel, nontrivial=lambda comp, kv, impl: impl != "out=-")
     C.evaluate(ctx, "udiff", lines, rel, nontrivial=lambda comp, kv, impl: impl.split(" ")[0] != "out=-")
+    # hundreds of small hunks: every k-th line of a few hundred changed, deleted or followed by an insertion
+    many = []
+    for rep in range(tiered(ctx, 4, 20)):
+        n = ctx.rng.choice([150, 300, 600])
+        k = ctx.rng.choice([4, 7, 10])
+        o_lines = [b"line %d\n" % i for i in range(n)]
+        n_lines = []
+        for i, l in enumerate(o_lines):
+            if i % k == 0:
+                r = ctx.rng.random()
+                if r < 0.4:
+                    n_lines.append(b"changed %d\n" % i)
+                elif r < 0.7:
+                    n_lines.extend([l, b"added %d\n" % i])
+                # else: deleted
+            else:
+                n_lines.append(l)
+        o, n2 = b"".join(o_lines), b"".join(n_lines)
+        if ctx.rng.random() < 0.5:
+            n2 = n2[:-1]
+        alg = ctx.rng.choice(ALGS)
+        for via in ("display", "writer", "hunks"):
+            many.append(udiff_line(alg, ctx.rng.choice(["str", "bytes"]), ctx.rng.choice([0, 1, 2, 3]), ctx.rng.randrange(2), 1, via, o, n2))
+            ctx.count("udiff:hundreds-of-hunks")
+    C.evaluate(ctx, "udiff-many-hunks", many, rel, cap=300, nontrivial=lambda comp, kv, impl: impl.split(" ")[0] != "out=-")
     # very long lines (around typical buffer sizes), with and without terminator, inside hunks.  The unary-number
     # model is cubic in the line length: model comparison up to 4096 bytes, verified parser + applier beyond
     big_x, big_k = [], []
@@ -1488,6 +1513,33 @@ def run_C15(ctx):
         ctx.count("patience:random", 2)
     C.evaluate(ctx, "corpus", corpus_lines({"raw", "capture"}), rel)
     C.evaluate(ctx, "patience", lines, rel)
+    # many unique items whose anchors come in particular ORDERS: reversed (longest chain 1), zig-zag, nearly sorted
+    # with displaced items, rotated, block swaps, riffles; plus repeated filler between them.  Checker only (the
+    # chain length comes from patience sorting in the driver, not from the unary-number DP)
+    big = []
+    for n in tiered(ctx, [400, 3000], [400, 3000, 20000]):
+        base = list(range(n))
+        perms = [list(reversed(base)),
+                 [x for p in zip(base[: n // 2], reversed(base[n // 2:])) for x in p],
+                 base[n // 3:] + base[: n // 3],
+                 base[1::2] + base[0::2]]
+        near = list(base)
+        for _ in range(10):
+            i, j = ctx.rng.randrange(n), ctx.rng.randrange(n)
+            near.insert(j, near.pop(i))
+        perms.append(near)
+        blocks = [base[i:i + 37] for i in range(0, n, 37)]
+        ctx.rng.shuffle(blocks)
+        perms.append([x for bl in blocks for x in bl])
+        for pnew in perms:
+            a, b = list(base), list(pnew)
+            if ctx.rng.random() < 0.5:      # repeated filler items between the unique ones
+                for _ in range(n // 10):
+                    a.insert(ctx.rng.randrange(len(a) + 1), n + ctx.rng.randrange(3))
+                    b.insert(ctx.rng.randrange(len(b) + 1), n + ctx.rng.randrange(3))
+            big.append(gen.raw_line("P", a, b))
+            ctx.count("patience:anchor-orders-%d" % n)
+    C.evaluate(ctx, "patience-anchor-orders", big, rel, x=False, cap=300)
 
 
 SPECS["C15"] = dict(
@@ -1501,7 +1553,9 @@ SPECS["C15"] = dict(
     run=run_C15,
     generators="raw and capture components with algorithm Patience, no deadline: every pair over a 4-letter alphabet up "
                "to length 4/5 modulo relabelling; random unique-rich sequences with shuffled blocks, items unique on one "
-               "side only, items repeated an odd number of times next to a genuine anchor, structured pairs, sub-ranges",
+               "side only, items repeated an odd number of times next to a genuine anchor, structured pairs, sub-ranges; "
+               "400 / 3000 (thorough: 20000) unique items in reversed, zig-zag, rotated, riffled, nearly sorted and "
+               "block-shuffled order (chain length by patience sorting in the driver)",
 )
 
 
